@@ -4,7 +4,9 @@ import IrohModel.C28.Model
 open IrohModel IrohModel.C27 IrohModel.C28
 
 /-! Line-protocol driver for C28 (trusted test plumbing: parsing and printing only).
-Grammar: see harness/hiroh/src/bin/c28.rs. -/
+Grammar: see harness/hiroh/src/bin/c28.rs.  Two modes: reports given as `update_relay` items,
+and (`P …`) reports given as raw probe reports that are folded by the C27 model of
+`Report::update` before they reach the C28 model of the history function. -/
 
 namespace C28Drv
 
@@ -29,8 +31,41 @@ def parseUpd (item : String) : Option (Probe × Nat × Nat) :=
     pure (k, u, lat)
   | _ => none
 
-/-- `<after_ms> <upd>;…` or `<after_ms> -`; the first space separates the delay. -/
-def parseStep (s : String) : Option (Nat × List (Probe × Nat × Nat)) :=
+def parseAddr (s : String) : Option Addr :=
+  match s.splitOn ":" with
+  | [f, ip, port] =>
+    if f = "4" then do
+      let ip ← parseBounded ip (2 ^ 32)
+      let port ← parseBounded port (2 ^ 16)
+      pure (Addr.v4 ip port)
+    else if f = "6" then do
+      let ip ← parseBounded ip (2 ^ 128)
+      let port ← parseBounded port (2 ^ 16)
+      pure (Addr.v6 ip port)
+    else none
+  | _ => none
+
+/-- A raw probe report: `h u lat` | `4 u lat addr` | `6 u lat addr`. -/
+def parseProbe (item : String) : Option ProbeReport :=
+  match (item.splitOn " ").filter (· ≠ "") with
+  | [k, u, lat] => do
+    let k ← parseKind k
+    let u ← parseBounded u 1000
+    let lat ← parseBounded lat (2 ^ 64)
+    if k = .https then pure (.https u lat) else none
+  | [k, u, lat, a] => do
+    let k ← parseKind k
+    let u ← parseBounded u 1000
+    let lat ← parseBounded lat (2 ^ 64)
+    let a ← parseAddr a
+    match k with
+    | .https => none
+    | .v4 => pure (.qad4 u lat a)
+    | .v6 => pure (.qad6 u lat a)
+  | _ => none
+
+/-- `<after_ms> <item>;…` or `<after_ms> -`; the first space separates the delay. -/
+def parseStep {α : Type} (item : String → Option α) (s : String) : Option (Nat × List α) :=
   let s := s.trimAscii.toString
   match s.splitOn " " with
   | after :: restToks =>
@@ -40,7 +75,7 @@ def parseStep (s : String) : Option (Nat × List (Probe × Nat × Nat)) :=
     | none => none
     | some a =>
       if rest = "-" then some (a, [])
-      else match (rest.splitOn ";").mapM parseUpd with
+      else match (rest.splitOn ";").mapM item with
         | some us => some (a, us)
         | none => none
   | [] => none
@@ -50,17 +85,25 @@ def showStep (o : Option Url × Nat) : String :=
   | none => s!"none,{o.2}"
   | some u => s!"{u},{o.2}"
 
+/-- Absolute instants (cumulative delays), then the whole history on a fresh client. -/
+def runSteps (steps : List (Nat × Report)) : String :=
+  let (_, timed) := steps.foldl (fun (acc : Nat × List (Nat × Report)) st =>
+    let now := acc.1 + st.1
+    (now, acc.2 ++ [(now, st.2)])) (0, [])
+  " ".intercalate ((runHist timed).2.map showStep)
+
 def handleLine (payload : String) : String :=
   let p := payload.trimAscii.toString
-  if p.isEmpty then "bad-input" else
-  match (p.splitOn "|").mapM parseStep with
-  | none => "bad-input"
-  | some steps =>
-    -- absolute instants: cumulative sum of the delays
-    let (_, timed) := steps.foldl (fun (acc : Nat × List (Nat × Report)) st =>
-      let now := acc.1 + st.1
-      (now, acc.2 ++ [(now, ({ lat := Latencies.build st.2 } : Report))])) (0, [])
-    " ".intercalate ((runHist timed).2.map showStep)
+  if p.isEmpty then "bad-input"
+  else if p.startsWith "P " then
+    match ((p.drop 2).toString.splitOn "|").mapM (parseStep parseProbe) with
+    | none => "bad-input"
+    | some steps => runSteps (steps.map fun st => (st.1, Report.run st.2))
+  else
+    match (p.splitOn "|").mapM (parseStep parseUpd) with
+    | none => "bad-input"
+    | some steps =>
+      runSteps (steps.map fun st => (st.1, ({ lat := Latencies.build st.2 } : Report)))
 
 end C28Drv
 
